@@ -132,6 +132,8 @@ def r2_delegation(ctx, tt):
         at = f'{cf.module.relpath}:{call.lineno}'
         b = F.bind_args(call, tr, False)
         iv = b.get('interval')
+        if isinstance(iv, ast.Name):        # a value computed once before the traversal
+            iv = G.substitute(iv, G.single_assignments(cf.node))
         ok_iv = isinstance(iv, ast.Subscript) and F.is_name(iv.value, 'IntervalsByName') and _is_own_param(ctx, tt, cf, iv.slice, p_int) \
             and ctx.prog.resolve(tt.module, 'IntervalsByName') is not None \
             and ctx.prog.resolve(tt.module, 'IntervalsByName').module.name == N.TRANSPOSER
